@@ -35,6 +35,9 @@ theorem filter2idl_sound (S : ValSem) (hS : SubSem S) (w : World) (idx : Idx)
 needle is an index key of every value that contains / starts with / ends with it. -/
 theorem sub_trigraph_superset : SubSem ValSem.std := subSem_std
 
+/-- `Err(OperationError::ResourceLimit)` — the explicit failure the property allows -/
+def resLimit {α : Type} : Except SErr α := Except.error SErr.resourceLimit
+
 /-- the exact answer: the stored ids whose entry satisfies the filter, in id order -/
 def answer (S : ValSem) (w : World) (f : F) : List Nat :=
   w.live.filter (fun id => f.matches S (w.ent id))
@@ -80,7 +83,7 @@ theorem getIdentry_indexed_exact (S : ValSem) (w : World) (f : F) (i : IdList)
 entries that satisfy the filter. -/
 theorem searchT_exact (S : ValSem) (hS : SubSem S) (w : World) (idx : Idx) (hI : IdxSound w idx)
     (thres : Nat) (lim : Limits) (f : F) (hf : f.safe = true) :
-    searchT thres S lim w idx f = .error .resourceLimit ∨
+    searchT thres S lim w idx f = resLimit ∨
       searchT thres S lim w idx f = .ok (answer S w f) := by
   have hA := filter2idl_sound S hS w idx hI thres f hf
   unfold searchT
@@ -106,12 +109,12 @@ returns exactly the stored entries satisfying the filter — for every database,
 layout whose tables mirror the entries, every slope annotation and every limit. -/
 theorem search_exact_partial (S : ValSem) (hS : SubSem S) (w : World) (idx : Idx)
     (hI : IdxSound w idx) (lim : Limits) (f : F) (hf : f.safe = true) :
-    search S lim w idx f = .error .resourceLimit ∨ search S lim w idx f = .ok (answer S w f) :=
+    search S lim w idx f = resLimit ∨ search S lim w idx f = .ok (answer S w f) :=
   searchT_exact S hS w idx hI thresSearch lim f hf
 
 theorem existsT_exact (S : ValSem) (hS : SubSem S) (w : World) (idx : Idx) (hI : IdxSound w idx)
     (thres : Nat) (lim : Limits) (f : F) (hf : f.safe = true) :
-    existsT thres S lim w idx f = .error .resourceLimit ∨
+    existsT thres S lim w idx f = resLimit ∨
       existsT thres S lim w idx f = .ok (!(answer S w f).isEmpty) := by
   have hA := filter2idl_sound S hS w idx hI thres f hf
   unfold existsT
@@ -149,7 +152,7 @@ theorem existsT_exact (S : ValSem) (hS : SubSem S) (w : World) (idx : Idx) (hI :
 satisfies the filter. -/
 theorem exists_exact_partial (S : ValSem) (hS : SubSem S) (w : World) (idx : Idx)
     (hI : IdxSound w idx) (lim : Limits) (f : F) (hf : f.safe = true) :
-    «exists» S lim w idx f = .error .resourceLimit ∨
+    «exists» S lim w idx f = resLimit ∨
       «exists» S lim w idx f = .ok (!(answer S w f).isEmpty) :=
   existsT_exact S hS w idx hI thresExists lim f hf
 
@@ -223,7 +226,7 @@ substring, presence, ordering terms) — no guardedness condition. -/
 def search_exact_full : Prop :=
   ∀ (S : ValSem), SubSem S → ∀ (w : World) (idx : Idx), IdxSound w idx →
     ∀ (lim : Limits) (f : F), f.plain = true →
-      search S lim w idx f = .error .resourceLimit ∨ search S lim w idx f = .ok (answer S w f)
+      search S lim w idx f = resLimit ∨ search S lim w idx f = .ok (answer S w f)
 
 /-- the D1 witness database: three entries, attribute 0 holds `ga`, `gb`, `gc` -/
 def d1World : World where
@@ -255,6 +258,36 @@ theorem search_exact_full_false : ¬ search_exact_full := by
   have := h ValSem.std subSem_std d1World (idxOf d1World (fun _ _ => true))
     (idxOf_sound _ _) d1Lim d1Filter (by decide +kernel)
   rw [d1_indexed, d1_answer] at this
+  rcases this with h | h
+  · cases h
+  · injection h with h; revert h; decide
+
+/-! ### the second witness: an indexed substring term with an empty needle (finding C01-F2) -/
+
+/-- `name co ""`, resolved as substring-indexed: no NOT at all, yet not exact -/
+def f2Filter : F := .cnt 0 (.str []) (some 1)
+
+/-- with the substring table present `filter2idl_sub` answers `Indexed(∅)` … -/
+theorem f2_indexed :
+    search ValSem.std d1Lim d1World (idxOf d1World (fun _ _ => true)) f2Filter = .ok [] := by
+  decide +kernel
+
+/-- … while every stored value contains the empty string -/
+theorem f2_answer : answer ValSem.std d1World f2Filter = [1, 2, 3] := by decide +kernel
+
+/-- … which is what the same search returns without the table -/
+theorem f2_unindexed :
+    search ValSem.std d1Lim d1World (idxOf d1World (fun _ _ => false)) (.cnt 0 (.str []) none)
+      = .ok [1, 2, 3] := by
+  decide +kernel
+
+/-- **C01-F2**: the empty needle alone makes the full statement false (so the hypothesis
+"indexed substring needles are non-empty" of `F.safe` cannot be dropped either). -/
+theorem search_exact_full_false_empty_needle : ¬ search_exact_full := by
+  intro h
+  have := h ValSem.std subSem_std d1World (idxOf d1World (fun _ _ => true))
+    (idxOf_sound _ _) d1Lim f2Filter (by decide +kernel)
+  rw [f2_indexed, f2_answer] at this
   rcases this with h | h
   · cases h
   · injection h with h; revert h; decide
